@@ -11,7 +11,7 @@ import (
 
 var c03Profile = &kvh.GenProfile{
 	Weights: map[string]int{
-		"put": 50, "del": 12, "batch": 16, "sync": 6, "merge": 3, "get": 1, "reopen": 3,
+		"put": 50, "del": 12, "batch": 16, "sync": 6, "merge": 3, "wipe": 2, "get": 1, "reopen": 3,
 	},
 	MaxBatchOps: 5,
 	Big:         true,
